@@ -37,6 +37,7 @@ type mwire struct {
 	sizes  []int // length of every datagram, in send order
 	// immediate: deliver in WriteTo instead of queueing (no pump needed; order not owned)
 	immediate bool
+	mute      bool // immediate mode: every datagram is lost
 }
 
 type mconn struct {
@@ -77,6 +78,9 @@ func (c *mconn) WriteToUDPAddrPort(b []byte, to netip.AddrPort) (int, error) {
 	}
 	if c.w.immediate {
 		dst := c.w.conns[to]
+		if c.w.mute {
+			dst = nil
+		}
 		c.w.mu.Unlock()
 		if dst != nil {
 			select {
